@@ -91,6 +91,8 @@ structure Task where
   hasNext : Bool
   errorHandled : Bool
   wi : Option (Nat × Option Nat)   -- runtime_context['with_items'] = (count, capacity)
+  conc : Option Nat            -- runtime_context['concurrency']: set by the concurrency policy in
+                               -- `_before_task_start`, i.e. only when the task starts through `_run_new`
   ran : Nat                    -- ghost: how many times the completion logic of Task.complete ran
   deriving Repr
 
@@ -121,8 +123,6 @@ inductive Event where
   | deliver (it : Item)
   | execute (t : Nat) (ok : Bool)                -- the executor runs the action of task t and reports
   | stop (wf : Nat) (s : St) (msg : String)      -- engine.stop_workflow(wf, s, msg): force-fail / succeed / cancel
-  | lose (it : Item)                             -- a post-commit operation fails (the exception is swallowed
-                                                 -- by post_tx_queue): what it would have sent is lost
   | pause (wf : Nat)                             -- engine.pause_workflow(wf)
   | resume (wf : Nat)                            -- engine.resume_workflow(wf)
   deriving Repr
@@ -172,7 +172,7 @@ def childrenOfTask (w : World) (t : Nat) : List (Nat × Exec) :=
 
 def newTask (wf : Nat) (n : String) : Task :=
   { wf := wf, name := n, state := .IDLE, processed := false, hasNext := false, errorHandled := false,
-    wi := none, ran := 0 }
+    wi := none, conc := none, ran := 0 }
 
 /-- one RunTask command: nothing once the workflow is completed; saved to the backlog while it is PAUSED;
     else the row (IDLE) and the post-commit `_start_task` -/
@@ -362,7 +362,7 @@ def runTask (c : Cfg) (w : World) (t : Nat) : World :=
       | some (.subwf d none _) =>
         if isCompleted e.state then completeTask c w1 t (refusedState e.state) else startSub c w1 t d 0
       | some (.subwf d (some n) conc) =>
-        let w2 := { w with tasks := w.tasks.set t { tk with state := .RUNNING, wi := some (n, conc) } }
+        let w2 := { w with tasks := w.tasks.set t { tk with state := .RUNNING, wi := some (n, conc), conc := conc } }
         wiSchedule c w2 t d n conc
 
 /-- `is_with_items_completed` -/
@@ -402,7 +402,8 @@ def wiOnComplete (c : Cfg) (w : World) (t : Nat) : World :=
     match w.execs[tk.wf]?, tk.wi with
     | some e, some (count, cap) =>
       match kindOf c e.defn tk.name with
-      | some (.subwf d (some _) conc) =>
+      | some (.subwf d (some _) _) =>
+        let conc := tk.conc
         let cap1 := incCap conc cap
         let w1 := { w with tasks := w.tasks.set t { tk with wi := some (count, cap1) } }
         if wiCompleted w1 t count cap1 conc then completeTask c w1 t (wiFinalState w1 t)
@@ -459,7 +460,9 @@ def runExisting (c : Cfg) (w : World) (t : Nat) : World :=
   match w.tasks[t]? with
   | none => w
   | some tk =>
-    if tk.state == .SUCCESS then w                       -- MistralError: the transaction is rolled back
+    -- SUCCESS: MistralError, the transaction is rolled back; any other completed state: the request is
+    -- stale and ignored (repo 17f326b9)
+    if isCompleted tk.state then w
     else if tk.state == .RUNNING && hasLive w t then w
     else
     match w.execs[tk.wf]? with
@@ -472,8 +475,10 @@ def runExisting (c : Cfg) (w : World) (t : Nat) : World :=
       | some .action => { w1 with pending := w1.pending ++ [.postRunAction t] }
       | some (.subwf d none _) =>
         if isCompleted e.state then completeTask c w1 t (refusedState e.state) else startSub c w1 t d 0
-      | some (.subwf d (some n) conc) =>
-        let wi := tk.wi.getD (n, conc)
+      | some (.subwf d (some n) _) =>
+        -- `_run_existing` does not run the policies (`if self.rerun: self._before_task_start()`): a task that
+        -- starts through this request has no 'concurrency' in its runtime context, all items start at once
+        let wi := tk.wi.getD (n, tk.conc)
         let w2 := { w0 with tasks := w0.tasks.set t { tk with state := .RUNNING, processed := false, wi := some wi } }
         wiSchedule c w2 t d wi.1 wi.2
 
@@ -538,24 +543,39 @@ def forceFail (w : World) (t : Nat) : World × Bool :=
     | some w2 => (w2, false)
     | none => (w1, true)
 
+/-- the first step of `_on_action_update(x)`: `task.on_action_update` = `Task.update(x.state)` of the parent task -/
+def updateLocal (w : World) (x : Nat) : World :=
+  match w.execs[x]? with
+  | none => w
+  | some e =>
+    match e.parent with
+    | none => w
+    | some t => taskUpdate w t e.state
+
 inductive Mode where
   | pause      -- workflow_handler.pause_workflow(x)
   | resume     -- workflow_handler.resume_workflow(x)
   | update     -- task_handler._on_action_update(x): x changed state, its parent task / workflow follow
+  | belowP     -- pause_workflow(x, nested=True) of a COMPLETED x: only its sub-workflows (repo patch 23)
+  | belowR     -- resume_workflow(x, nested=True) of a COMPLETED x: only its sub-workflows
   deriving Repr, DecidableEq
 
 /-- pause_workflow / resume_workflow / _on_action_update call each other inside ONE transaction: the
-    sub-workflows first, then the workflow itself, then (`schedule_on_action_update`) the parent task and the
+    sub-workflows first (ALL of them since repo patch 23: below a completed sub-workflow only its own
+    sub-workflows are visited), then the workflow itself, then (`schedule_on_action_update`) the parent task and the
     parent workflow — synchronously for a plain parent task, through a scheduler job for a with-items one.
     Result: the world and "an exception left this call" (an invalid transition in `Workflow.set_state`;
-    inside `_on_action_update` it is caught and the parent task is force-failed).  Fuel: nesting depth. -/
+    inside `_on_action_update` it is caught and the parent task is force-failed).  Fuel: nesting depth (a call
+    without fuel does nothing, except that `_on_action_update` still updates the parent task: the local step
+    never depends on the fuel). -/
 def prop (c : Cfg) : Nat → Mode → World → Nat → World × Bool
+  | 0, .update, w, x => (updateLocal w x, false)
   | 0, _, w, _ => (w, false)
   | f + 1, .pause, w, x =>
     let r := (kidsOf w x).foldl (fun (acc : World × Bool) k =>
       if acc.2 then acc else
       match acc.1.execs[k]? with
-      | some ek => if isCompleted ek.state then acc else prop c f .pause acc.1 k
+      | some ek => if isCompleted ek.state then prop c f .belowP acc.1 k else prop c f .pause acc.1 k
       | none => acc) (w, false)
     if r.2 then r else
     match r.1.execs[x]? with
@@ -578,7 +598,7 @@ def prop (c : Cfg) : Nat → Mode → World → Nat → World × Bool
       let r := (kidsOf w x).foldl (fun (acc : World × Bool) k =>
         if acc.2 then acc else
         match acc.1.execs[k]? with
-        | some ek => if isCompleted ek.state then acc else prop c f .resume acc.1 k
+        | some ek => if isCompleted ek.state then prop c f .belowR acc.1 k else prop c f .resume acc.1 k
         | none => acc) (w, false)
       if r.2 then r else
       match r.1.execs[x]? with
@@ -595,6 +615,18 @@ def prop (c : Cfg) : Nat → Mode → World → Nat → World × Bool
             if isWithItemsTask c w1 t then ({ w1 with pending := w1.pending ++ [.jobChildUpdate x] }, false)
             else prop c f .update w1 x
         else (r.1, true)
+  | f + 1, .belowP, w, x =>
+    (kidsOf w x).foldl (fun (acc : World × Bool) k =>
+      if acc.2 then acc else
+      match acc.1.execs[k]? with
+      | some ek => if isCompleted ek.state then prop c f .belowP acc.1 k else prop c f .pause acc.1 k
+      | none => acc) (w, false)
+  | f + 1, .belowR, w, x =>
+    (kidsOf w x).foldl (fun (acc : World × Bool) k =>
+      if acc.2 then acc else
+      match acc.1.execs[k]? with
+      | some ek => if isCompleted ek.state then prop c f .belowR acc.1 k else prop c f .resume acc.1 k
+      | none => acc) (w, false)
   | f + 1, .update, w, x =>
     match w.execs[x]? with
     | none => (w, false)
@@ -619,14 +651,6 @@ def prop (c : Cfg) : Nat → Mode → World → Nat → World × Bool
 
 def fuelOf (w : World) : Nat := 4 * w.execs.length + 8
 
-/-- the transaction raised and is rolled back: rows and post-commit operations are gone, but the scheduler
-    jobs it scheduled stay in the scheduler's memory (`DefaultScheduler.schedule` registers the job in memory
-    before the transaction commits) and will run -/
-def rolledBack (w w' : World) : World :=
-  { w with pending := w.pending ++ (w'.pending.drop w.pending.length).filter fun i => match i with
-      | .jobChildUpdate _ => true
-      | _ => false }
-
 /-! ## the transition system -/
 
 def step (c : Cfg) (w : World) : Event → World
@@ -635,13 +659,12 @@ def step (c : Cfg) (w : World) : Event → World
     match s with
     | .CANCELLED => if a < w.execs.length then cancelTx w a msg else w
     | _ => (stopOne w a s (.op msg)).getD w
-  | .lose it => if !w.pending.contains it then w else { w with pending := removeFirst w.pending it }
   | .pause a =>
     let r := prop c (fuelOf w) .pause w a
-    if r.2 then rolledBack w r.1 else r.1
+    if r.2 then w else r.1
   | .resume a =>
     let r := prop c (fuelOf w) .resume w a
-    if r.2 then rolledBack w r.1 else r.1
+    if r.2 then w else r.1
   | .execute t ok =>
     if !w.pending.contains (.runAction t) then w else
     { w with pending := removeFirst w.pending (.runAction t) ++ [.rpcResult t ok] }
